@@ -17,8 +17,15 @@ class Injected(ValueError, IndexError, KeyError, ZeroDivisionError, TypeError, A
         return self.args[0] if self.args else 'injected fault'
 
 
+class InjectedStop(StopIteration):
+    """A user callback may also raise StopIteration (e.g. next() on an exhausted stream); iterator plumbing such as
+    list(map(...)) or generators silently absorbs it."""
+
+
 class Injector:
     """Global callback-invocation counter; raises Injected at the armed invocation."""
+
+    exc_class = None         # set per execution: Injected or InjectedStop
 
     def __init__(self):
         self.count = 0
@@ -37,7 +44,7 @@ class Injector:
         self.kinds.append(kind)
         if self.armed is not None and self.count == self.armed:
             self.armed = None
-            self.fired = Injected(f"injected fault at callback invocation {self.count} ({kind})")
+            self.fired = (self.exc_class or Injected)(f"injected fault at callback invocation {self.count} ({kind})")
             self.fired.kind = kind
             raise self.fired
 
